@@ -1,6 +1,7 @@
 package symgo
 
 import (
+	"strings"
 	"fmt"
 	"go/token"
 	"go/types"
@@ -451,6 +452,7 @@ func (e *Engine) recvOp(w *Worker, st *State, g *G, fr *Frame, in *ssa.UnOp) {
 	ch := e.chanOf(e.get(st, g, fr, in.X))
 	e.visible(st, g, Op{Kind: opRecv, Ch: ch, Pos: e.instrPos(fr)})
 	et := in.X.Type().Underlying().(*types.Chan).Elem()
+	e.checkOffer(st, g, fr, et, nil)
 	val, ok := e.doRecv(st, g, ch, et)
 	if in.CommaOk {
 		e.set(fr, in, Tuple{val, BoolC(ok)})
@@ -531,6 +533,7 @@ func (e *Engine) selectOp(w *Worker, st *State, g *G, fr *Frame, in *ssa.Select)
 		e.set(fr, in, e.selectResult(in, gr.Case, nil, false))
 	} else {
 		et := in.States[gr.Case].Chan.Type().Underlying().(*types.Chan).Elem()
+		e.checkOffer(st, g, fr, et, cases)
 		val, ok := e.doRecv(st, g, sc.Ch, et)
 		e.set(fr, in, e.selectResult(in, gr.Case, val, ok))
 	}
@@ -1031,4 +1034,35 @@ func intrSyncPoolGet(c *icall) {
 		unsupported(c.curPos(), "deferred sync.Pool.Get")
 	}
 	c.e.pushCall(c.w, c.st, c.g, nf, nil, fkCall, c.curPos())
+}
+
+// checkOffer enforces the rules registered with vRecvMustOffer(elem, done, id): when repository
+// code takes a value off a channel whose element type contains elem although the channel done
+// is already closed, the operation must have been a select that also offered a receive on
+// done. A loop that polls such a channel first and looks at done only when it is empty never
+// sees done while values keep arriving - an unbounded delay that no bounded run exhibits as a
+// missing completion, which is why it is checked as a structural rule on the executed code.
+func (e *Engine) checkOffer(st *State, g *G, fr *Frame, et types.Type, cases []selCase) {
+	if len(st.offers) == 0 || !fr.Info.repo {
+		return
+	}
+	name := types.TypeString(et, nil)
+	for _, r := range st.offers {
+		if !strings.Contains(name, r.elem) {
+			continue
+		}
+		d := st.chanObj(ChanRef{r.done})
+		if d == nil || !d.Closed {
+			continue
+		}
+		offered := false
+		for _, c := range cases {
+			if !c.Send && c.Ch == r.done {
+				offered = true
+			}
+		}
+		if !offered {
+			panic(failReq{&Failure{Kind: "assert", ID: r.id, Pos: e.posStr(e.instrPos(fr)), Stack: e.stackOf(g)}})
+		}
+	}
 }
